@@ -9,10 +9,13 @@ package dastard
 
 import (
 	"fmt"
+	"os"
 	"sync"
+	"sync/atomic"
 	"time"
 
 	"github.com/usnistgov/dastard/packets"
+	"github.com/usnistgov/dastard/ringbuffer"
 )
 
 // VerifScriptedProducer is a PacketProducer whose k-th ReadAllPackets call returns the k-th scripted
@@ -21,6 +24,10 @@ import (
 type VerifScriptedProducer struct {
 	Sampled []*packets.Packet   // returned by samplePackets
 	Batches [][]*packets.Packet // Batches[k] is returned by the k-th ReadAllPackets call
+	// Ring, when set, makes this producer a REAL AbacoRing: a batch is first written as bytes into the
+	// shared-memory ring (every packet padded to a whole number of ring slots, as the card's driver
+	// does) and what the k-th call returns is what AbacoRing.ReadAllPackets decodes from the ring.
+	Ring *VerifRing
 	calls   int
 	done    chan struct{} // closed by the leading producer when its script is exhausted
 	release chan struct{} // closed by the harness to let the reader loop go on (and end)
@@ -32,6 +39,9 @@ func (p *VerifScriptedProducer) ReadAllPackets() ([]*packets.Packet, error) {
 	k := p.calls
 	p.calls++
 	if k < len(p.Batches) {
+		if p.Ring != nil {
+			return p.Ring.through(p.Batches[k])
+		}
 		return p.Batches[k], nil
 	}
 	if k == len(p.Batches) && p.leader {
@@ -42,11 +52,79 @@ func (p *VerifScriptedProducer) ReadAllPackets() ([]*packets.Packet, error) {
 }
 
 func (p *VerifScriptedProducer) samplePackets(d time.Duration) ([]*packets.Packet, error) {
+	if p.Ring != nil {
+		// one ring read instead of AbacoRing.samplePackets' 2 s polling loop (timing is not the subject)
+		return p.Ring.through(p.Sampled)
+	}
 	return p.Sampled, nil
 }
-func (p *VerifScriptedProducer) start() error        { return nil }
-func (p *VerifScriptedProducer) discardStale() error { return nil }
-func (p *VerifScriptedProducer) stop() error         { return nil }
+func (p *VerifScriptedProducer) start() error {
+	if p.Ring != nil {
+		return p.Ring.dev.start()
+	}
+	return nil
+}
+func (p *VerifScriptedProducer) discardStale() error {
+	if p.Ring != nil {
+		return p.Ring.dev.discardStale()
+	}
+	return nil
+}
+func (p *VerifScriptedProducer) stop() error {
+	if p.Ring != nil {
+		return p.Ring.dev.stop()
+	}
+	return nil
+}
+
+// VerifRing is a shared-memory ring (test ring: negative ring number) with the AbacoRing device that
+// reads it and the writer side that plays the card's driver.
+type VerifRing struct {
+	dev    *AbacoRing
+	writer *ringbuffer.RingBuffer
+	slot   int
+}
+
+var verifRingCounter int64
+
+// VerifNewRing creates a ring of the given number of packet slots (the slot size is the packet size
+// ringbuffer.Create writes into the ring description) and the AbacoRing that will read it.
+func VerifNewRing(slots int) (*VerifRing, error) {
+	k := atomic.AddInt64(&verifRingCounter, 1)
+	ringnum := -int(int64(os.Getpid())*1000 + k%1000)
+	dev, err := NewAbacoRing(ringnum)
+	if err != nil {
+		return nil, err
+	}
+	w, err := ringbuffer.NewRingBuffer(verifRingName(ringnum, "buffer"), verifRingName(ringnum, "description"))
+	if err != nil {
+		return nil, err
+	}
+	const slot = 8192
+	if err = w.Create(slots * slot); err != nil {
+		return nil, err
+	}
+	return &VerifRing{dev: dev, writer: w, slot: slot}, nil
+}
+
+// Remove unlinks the shared memory.
+func (r *VerifRing) Remove() { r.writer.Unlink() }
+
+// through writes the packets into the ring, each padded to whole slots, and reads them back with
+// the device's ReadAllPackets.
+func (r *VerifRing) through(pkts []*packets.Packet) ([]*packets.Packet, error) {
+	for _, p := range pkts {
+		b := p.Bytes()
+		if over := len(b) % r.slot; over != 0 {
+			b = append(b, make([]byte, r.slot-over)...)
+		}
+		n, err := r.writer.Write(b)
+		if err != nil || n != len(b) {
+			return nil, fmt.Errorf("ring too small for the scripted batch: wrote %d of %d bytes (%v)", n, len(b), err)
+		}
+	}
+	return r.dev.ReadAllPackets()
+}
 
 // VerifAbacoRun is a real AbacoSource whose producers are scripted.
 type VerifAbacoRun struct {
@@ -103,6 +181,39 @@ func VerifNewAbacoRun(prods []*VerifScriptedProducer) (*VerifAbacoRun, error) {
 		return nil, err
 	}
 	return r, nil
+}
+
+// Restart runs the SAME AbacoSource object again, as a Stop followed by a Start does in the server:
+// the previous run must have been ended with Close; new producers are installed and Sample,
+// PrepareChannels, PrepareRun and StartRun are called again.
+func (r *VerifAbacoRun) Restart(prods []*VerifScriptedProducer) error {
+	if len(prods) == 0 {
+		return fmt.Errorf("no producers")
+	}
+	as := r.AS
+	r.done = make(chan struct{})
+	r.release = make(chan struct{})
+	r.nticks = len(prods[0].Batches)
+	as.producers = make([]PacketProducer, 0, len(prods))
+	for i, p := range prods {
+		if len(p.Batches) != r.nticks {
+			return fmt.Errorf("producer %d scripts %d batches, producer 0 scripts %d", i, len(p.Batches), r.nticks)
+		}
+		p.done = r.done
+		p.release = r.release
+		p.leader = i == 0
+		as.producers = append(as.producers, p)
+	}
+	if err := as.Sample(); err != nil {
+		return err
+	}
+	if err := as.PrepareChannels(); err != nil {
+		return err
+	}
+	if err := as.PrepareRun(4, 8); err != nil {
+		return err
+	}
+	return as.StartRun()
 }
 
 // VerifAbacoSeg is the projection of one DataSegment of a block.
@@ -215,6 +326,7 @@ func (r *VerifAbacoRun) Close() {
 		select {
 		case _, ok := <-as.buffersChan:
 			if !ok {
+				as.closeDevices() // what getNextBlock does when it finds buffersChan closed
 				return
 			}
 		case <-deadline:
